@@ -327,4 +327,24 @@ PROPS = {
         level_note="Any number of messages, any partial-write pattern, any interleaving respecting the lock (no bound).",
         explanation="conservation-law contracts with rely/guarantee interference + AST lock coverage.",
     ),
+    "C18": dict(
+        specs=["packer", "avp", "avp_types", "avp_grouped", "base", "node_model", "peer", "helpers", "c20", "family", "node", "c13", "c15", "c18"],
+        ground=[], replay=replay.generic,
+        trusted_base=["thread join / sleep are environment steps during which the I/O thread may close connections"],
+        assumptions=COMMON_ASSUME + [
+            "NOT DECIDED (liveness/timing): that the I/O thread finishes within the join timeout, hence 'when stop returns every "
+            "peer socket is closed' and 'all worker threads terminate'; the stop branch at the top of _handle_connections is not "
+            "under contract",
+            "behavioural contract of Application.stop (ghost flag); ownership of sequence generators"],
+        level_text="Deductive proof of the safety clauses of shutdown on the real code: stop(force=False) sends a DPR with cause "
+                   "REBOOTING to exactly the connections that are READY/READY_WAITING_DWA and leaves them DISCONNECTING "
+                   "(per-iteration step contract), a forced stop sends nothing, every listening socket is closed and every "
+                   "application stopped when stop returns, a second stop / stop before start is refused without effect; a "
+                   "connection arriving while stopping is refused and released without touching any table (C13 contract); no "
+                   "watchdog is sent and nobody is dialled while stopping (_check_timers, _reconnect_peers); a DPA moves the "
+                   "connection to CLOSING and the I/O-loop slice closes a CLOSING connection (clean disconnect) only when its "
+                   "write buffer is empty.",
+        level_note="Safety only; termination and timing are not decided.",
+        explanation="contracts of stop(), the stopping guards and the flush branch.",
+    ),
 }
